@@ -14,3 +14,4 @@ pub mod common;
 pub mod order;
 pub mod structs;
 pub mod dispatch;
+pub mod session;
